@@ -1496,6 +1496,20 @@ async def run_history(spec: dict[str, Any], hist: History,
         if a.shadow.count != before:
             hist.aborted = 'told-during-nonuid-search'
             return
+        # UID SEARCH with message sequence numbers in the program: they are
+        # numbers of the view the client knows - the EXPUNGEs that tell it
+        # otherwise come behind the SEARCH line of this very response
+        gen2 = Gen(rng, run.view, pool, absent)
+        for _ in range(2):
+            if run.dead or hist.violations:
+                break
+            await run.judge(gen2.program(force='SEQSET'), True)
+            counters['uid_search_on_hidden_view'] = counters.get(
+                'uid_search_on_hidden_view', 0) + 1
+            if a.shadow.count != before:
+                break                   # told now
+        if run.dead:
+            return
         # phase 3: told now; the renumbered view with UID gaps
         r = await a.cmd(b'NOOP')
         if not r.ok:
